@@ -361,9 +361,12 @@ double splinetable<Alloc>::ndsplineeval_deriv(const double* x, const int* center
 						  x[n], centers[n], order[n],
 						  localbasis[n]);
 		} else {
+			//use the same polynomial piece as the other evaluations do
+			int span = bspline_interval(&knots[n][0], nknots[n], x[n],
+			                            centers[n], order[n]);
 			for (uint32_t i = 0; i <= order[n]; i++)
-				localbasis[n][i] = bspline_deriv(
-												   &knots[n][0], x[n],
+				localbasis[n][i] = bspline_deriv_span(
+												   &knots[n][0], x[n], span,
 												   centers[n] - order[n] + i, 
 												   order[n], derivatives[n]);
 		}
@@ -579,9 +582,12 @@ double splinetable<Alloc>::evaluator_type<Float>::ndsplineeval_deriv(const doubl
 						  x[n], centers[n], table.order[n],
 						  localbasis[n]);
 		} else {
+			//use the same polynomial piece as the other evaluations do
+			int span = bspline_interval(&table.knots[n][0], table.nknots[n], x[n],
+			                            centers[n], table.order[n]);
 			for (uint32_t i = 0; i <= table.order[n]; i++)
-				localbasis[n][i] = bspline_deriv(
-												   &table.knots[n][0], x[n],
+				localbasis[n][i] = bspline_deriv_span(
+												   &table.knots[n][0], x[n], span,
 												   centers[n] - table.order[n] + i, 
 												   table.order[n], derivatives[n]);
 		}
